@@ -25,6 +25,7 @@ Apply(e, s) ==
     [] e.ev = "HandlerPoll"  -> SHandlerPoll(s, e.h)
     [] e.ev = "HandlerDone"  -> SHandlerDone(s, e.h)
     [] e.ev = "HandlerDropped" -> SHandlerDropped(s, e.h)
+    [] e.ev = "HandlerExit"  -> SHandlerExit(s, e.h)
     [] e.ev = "AppDropHandler" -> SAppDrop(s, e.h)
     [] e.ev = "AppDropStream"  -> SStreamGone(s, "dropped")
     [] e.ev = "StreamErr"    -> SStreamGone(s, e.kind)
